@@ -1096,7 +1096,7 @@ func TestProp(t *testing.T) {
 	// catalogue: every catalogue program on each of four unsynchronised goroutines at once
 	rotations := 8
 	if run.Env.Thorough() {
-		rotations = len(catalogue)
+		rotations = len(catalogue) / 2
 	}
 	withCapture(run, "catalogue", func() {
 		run.Enum("catalogue", fmt.Sprintf("%d plans; in each, four seeded VMs (all dice families on, own hooks, error languages 0,1,2,0) run the whole catalogue of %d programs (every built-in function, prototype method, bound method kept in a variable, dice family, template, function, computed value, st form, per-VM hook, inputs rejected at parse and at run time) as one history each, started at four different offsets (0, d, 2d+1, 3d+3 for the plan's d), beside a fifth, unseeded VM that rolls 2d6+1 forty times; no synchronisation between the goroutines, so the happens-before detector judges every pair of catalogue programs in every plan; each evaluation compared with its solitary twin; non-trivial = at least two goroutines had evaluations in progress at the same time; distinct by d", rotations, len(catalogue)),
@@ -1120,11 +1120,11 @@ func TestProp(t *testing.T) {
 	}
 
 	withCapture(run, "plans", func() {
-		run.Check("plans", 180, 2400, planRule+"; built with the race detector and without the verif hooks (whose shared atomic meter would order the goroutines and hide races): zero race reports, each report attributed to the plan that was running",
+		run.Check("plans", 180, 1600, planRule+"; built with the race detector and without the verif hooks (whose shared atomic meter would order the goroutines and hide races): zero race reports, each report attributed to the plan that was running",
 			func(t *rapid.T, s *rt.Section) { planProp(t, s, run) })
 	})
 
-	run.Check("sched", 540, 8000, planRule+"; plain binary with the verif hooks: every n-th VM instruction or roll (n drawn from 1, 2, 7, 50, 400, or never) yields the processor, unseeded VMs roll at the same time",
+	run.Check("sched", 540, 4800, planRule+"; plain binary with the verif hooks: every n-th VM instruction or roll (n drawn from 1, 2, 7, 50, 400, or never) yields the processor, unseeded VMs roll at the same time",
 		func(t *rapid.T, s *rt.Section) { planProp(t, s, run) })
 }
 
